@@ -261,10 +261,12 @@ class Trace:
         canon = (family, cls, float(ts), source, obj) + tuple(
             ('' if (k == 'text' and v is None) else v)
             for (f, _m2, k), v in zip(fields, values))
+        exact = (family, cls, float(ts), source, obj) + tuple(values)
         nontrivial = bool(none_fields) or any(
             isinstance(v, str) and any(c in v for c in ':.#@-')
             for v in values)
-        return {'enc': node, 'val': repr(canon), 'evals': evals,
+        return {'enc': node, 'val': repr(canon), 'val_exact': repr(exact),
+                'evals': evals,
                 'nontrivial': nontrivial, 'viol': viol,
                 'tags': ['trace.route.' + route]}
 
